@@ -42,8 +42,7 @@ func (q PathQuery) Find() ([]Point, bool) {
 	scan := func(b *cfg.Block, i int, first bool) bool {
 		for ; i < len(b.Nodes); i++ {
 			pt := Point{b, i}
-			// start point itself is never an avoid point
-			if !(first && i == startI && !q.FromAfter) && q.Avoid != nil && q.Avoid(pt) {
+			if q.Avoid != nil && q.Avoid(pt) {
 				return false
 			}
 			if q.Target != nil && q.Target(pt) {
